@@ -2,6 +2,7 @@
 // Every history up to a depth bound of region-opening operations (13 kinds), each applied to ANY region created so
 // far (hence every tree shape and creation order up to the depth), under three kinds of unit.  Reference model:
 // parent-pointer tree + owner map.  The whole forest is re-validated in every final state.
+#include <algorithm>
 #include <map>
 #include <memory>
 #include <string>
@@ -226,6 +227,7 @@ namespace {
          const ipr::Namespace& ns = unit_iface->global_namespace();
          auto id = ipr::util::view<ipr::Identifier>(ns.name());
          if (id == nullptr or id->string().size() != 0) err("C12:unit:global-namespace-named", "the global namespace is not unnamed");
+         else if (id != &lex.get_identifier(u8"")) err("C12:unit:global-namespace-name-foreign", "the name of the unit's global namespace is not the unit's own Lexicon's unnamed identifier");
          if (&ns.type() != &static_cast<const ipr::Lexicon&>(lex).namespace_type()) err("C12:unit:global-namespace-type", "the global namespace is not typed `namespace`");
          if (&ns.region() != root) err("C12:unit:global-namespace-region", "the global namespace's region is not the global region");
          if (module) {
@@ -296,6 +298,56 @@ namespace {
       return nregions;
    }
 
+   // Long member lists: positions stay equal to the index far beyond the handful of members the histories add.
+   void long_lists(int n)
+   {
+      ipr::impl::Lexicon lex;
+      ipr::impl::Translation_unit unit{ lex };
+      auto& G = *unit.global_region();
+      auto name = [&](int i) -> const ipr::Name& { return lex.get_identifier(std::u8string(u8"m") + char8_t('a' + i % 26) + char8_t('a' + i / 26 % 26) + char8_t('a' + i / 676 % 26) + char8_t('a' + i / 17576 % 26)); };
+      auto bad = [&](const std::string& key, const std::string& what, int i) {
+         rep.violation(key, i, what + " [list of " + std::to_string(n) + " members, member #" + std::to_string(i) + "]", vf::JObj{}.str("pass", "C12").str("family", "long-list").raw("ops", vf::jarr(std::vector<long long>{ n, i })).done());
+      };
+      auto params = [&](ipr::impl::Parameter_list& pl, const ipr::Region& home, std::size_t level, const char* what) {
+         std::vector<const ipr::Parameter*> made;
+         for (int i = 0; i < n; ++i) made.push_back(pl.add_member(name(i), lex.int_type()));
+         for (int i = 0; i < n; ++i) {
+            rep.count("transitions");
+            const ipr::Parameter& p = *made[std::size_t(i)];
+            if (std::size_t(p.position()) != std::size_t(i)) { bad("C12:parameter:position", std::string("a parameter of a ") + what + " reports position " + std::to_string(std::size_t(p.position())), i); break; }
+            if (std::size_t(p.level()) != level) { bad("C12:parameter:level", std::string("a parameter of a ") + what + " does not report the nesting level of its list", i); break; }
+            if (&p.home_region() != &home) { bad("C12:parameter:home-region", std::string("a parameter's home region is not its list's region (") + what + ")", i); break; }
+         }
+         rep.count("states", n);
+      };
+      auto* m = lex.make_mapping(G, ipr::Mapping_level{ 2 });
+      params(m->inputs, static_cast<const ipr::Mapping&>(*m).parameters().region(), 2, "mapping");
+      auto* l = lex.make_lambda(G, ipr::Mapping_level{ 1 });
+      params(l->inputs, static_cast<const ipr::Lambda&>(*l).parameters().region(), 1, "lambda");
+      auto* rq = lex.make_requires(G, ipr::Mapping_level{ 3 });
+      params(rq->formals, static_cast<const ipr::Requires&>(*rq).parameters().region(), 3, "requires-expression");
+      auto* fm = G.make_function_morphism(G, ipr::Mapping_level{ 0 });
+      params(fm->inputs, static_cast<const ipr::cxx_form::Morphism::Function&>(*fm).parameters().region(), 0, "function declarator");
+      auto* e = lex.make_enum(G, ipr::Enum::Kind::Legacy);
+      std::vector<const ipr::Enumerator*> ens;
+      for (int i = 0; i < n; ++i) ens.push_back(e->add_member(name(i)));
+      for (int i = 0; i < n; ++i) {
+         rep.count("transitions");
+         if (std::size_t(ens[std::size_t(i)]->position()) != std::size_t(i)) { bad("C12:enumerator:position", "an enumerator reports position " + std::to_string(std::size_t(ens[std::size_t(i)]->position())), i); break; }
+         if (&ens[std::size_t(i)]->home_region() != &static_cast<const ipr::Enum&>(*e).region()) { bad("C12:enumerator:home-region", "an enumerator's home region is not the body of its enumeration", i); break; }
+      }
+      auto* c = lex.make_class(G);
+      const int nb = std::min(n, 2000);
+      std::vector<const ipr::Base_type*> bs;
+      for (int i = 0; i < nb; ++i) bs.push_back(c->declare_base(lex.get_pointer(i ? bs.back()->type() : static_cast<const ipr::Type&>(lex.int_type()))));
+      for (int i = 0; i < nb; ++i) {
+         rep.count("transitions");
+         if (std::size_t(bs[std::size_t(i)]->position()) != std::size_t(i)) { bad("C12:base:position", "a base reports position " + std::to_string(std::size_t(bs[std::size_t(i)]->position())), i); break; }
+      }
+      rep.count("states", n + nb);
+      rep.count("traces");
+   }
+
    void dfs(Hist& h, int depth, int nregions, long long& counter)
    {
       for (int op = 0; op < NOPS; ++op)
@@ -323,13 +375,18 @@ int main(int argc, char** argv)
       verbose = true;
       auto text = vf::slurp(opt.replay);
       auto ops = vf::json_int_array(text, "ops");
+      if (text.find("\"long-list\"") != std::string::npos and not ops.empty()) { std::printf("replay C12: member lists of %lld\n", ops[0]); long_lists(int(ops[0])); }
+      else {
       Hist h{ int(vf::json_int(text, "unit")), std::vector<int>(ops.begin(), ops.end()) };
       std::printf("replay C12: %s\n", h.text().c_str());
       run(h, true);
+      }
       for (auto& [k, v] : rep.viols) std::printf("violated: %s  (%s)\n", k.c_str(), v.what.c_str());
       return rep.viols.empty() ? 0 : 1;
    }
    const bool deep = opt.thorough();
+   if (opt.shard == 0) long_lists(300);
+   if (opt.shard == 1 % opt.shards) long_lists(deep ? 70000 : 1100);
    const int depth_by_unit[3] = { deep ? 5 : 4, deep ? 4 : 3, deep ? 4 : 3 };
    for (int unit = 0; unit < 3; ++unit)
       for (int d = 0; d <= depth_by_unit[unit]; ++d) {
